@@ -49,6 +49,7 @@ def make_probe_class():
     @struct.dataclass
     class POut(Base):
         y: jax.Array
+        v: jax.Array  # payload with more than one element per message: always (y + [0, 1, 2]) % M
 
     class Probe(BaseNode):
         """Integer probe: any wrong slot / wrong order / double execution changes every later value."""
@@ -67,7 +68,7 @@ def make_probe_class():
 
         def init_output(self, rng=None, graph_state=None):
             k = sum(ord(c) for c in self.name) % 89 + 3
-            return POut(y=jnp.array(k, dtype=jnp.int32))
+            return POut(y=jnp.array(k, dtype=jnp.int32), v=(jnp.array(k, dtype=jnp.int32) + jnp.arange(3, dtype=jnp.int32)) % M)
 
         def step(self, step_state):
             ss = step_state
@@ -83,7 +84,7 @@ def make_probe_class():
             y = (7 * s + seq) % M
             if self.count_calls:
                 jax.debug.callback(_bump, self.name, seq, jnp.asarray(ss.eps, dtype=jnp.int32), ordered=True)
-            return ss.replace(rng=new_rng, state=PState(s=s.astype(jnp.int32))), POut(y=y.astype(jnp.int32))
+            return ss.replace(rng=new_rng, state=PState(s=s.astype(jnp.int32))), POut(y=y.astype(jnp.int32), v=((y.astype(jnp.int32) + jnp.arange(3, dtype=jnp.int32)) % M).astype(jnp.int32))
 
     return Probe, PParams, PState, POut
 
@@ -240,6 +241,37 @@ def _key_data(k):
         return [int(x) for x in onp.asarray(k).reshape(-1)]
 
 
+def make_out(node, value):
+    """a probe output with payload `value` (both leaves consistent)"""
+    import jax.numpy as jnp
+
+    y = jnp.array(value, dtype=jnp.int32)
+    return type(node.init_output())(y=y, v=((y + jnp.arange(3, dtype=jnp.int32)) % M).astype(jnp.int32))
+
+
+def payload_corrupt(data, step_seq=None):
+    """the probes' payload carries y and v = (y + [0, 1, 2]) % M; returns the first (step, entry, y, v) where a window entry's
+    elements do not belong together (rows of different messages mixed), or None"""
+    import numpy as onp
+
+    if getattr(data, "v", None) is None:
+        return None
+    y = onp.asarray(data.y).astype(onp.int64)
+    v = onp.asarray(data.v).astype(onp.int64)
+    if v.shape != y.shape + (3,):
+        return (-1, -1, list(y.shape), list(v.shape))
+    want = (y[..., None] + onp.arange(3)) % M
+    wrong = (want != v).any(axis=-1)
+    if step_seq is not None:  # rows of steps that were not executed hold no window
+        ok_rows = onp.asarray(step_seq).reshape(-1) >= 0
+        wrong = wrong & ok_rows.reshape((-1,) + (1,) * (wrong.ndim - 1))
+    bad = onp.argwhere(wrong)
+    if len(bad) == 0:
+        return None
+    idx = tuple(bad[0])
+    return (int(idx[0]), int(idx[-1]) if len(idx) > 1 else 0, int(y[idx]), v[idx].tolist())
+
+
 def node_record_to_dict(rec, with_inputs=True):
     """rec: base.NodeRecord with stacked steps (async get_record or compiled aux record)."""
     import numpy as onp
@@ -264,6 +296,9 @@ def node_record_to_dict(rec, with_inputs=True):
         for name, i in st.inputs.items():
             ins[name] = dict(seq=onp.asarray(i.seq).astype(int).tolist(), ts_sent=onp.asarray(i.ts_sent).astype(float).tolist(),
                              ts_recv=onp.asarray(i.ts_recv).astype(float).tolist(), data=onp.asarray(i.data.y).astype(int).tolist())
+            bad = payload_corrupt(i.data, st.seq)
+            if bad:
+                out.setdefault("payload_corrupt", []).append(f"input {name}: step {bad[0]} window entry {bad[1]}: y={bad[2]} but v={bad[3]} (must be (y + [0, 1, 2]) % M)")
         out["inputs"] = ins
     if getattr(rec, "inputs", None) is not None:
         msgs = {}
